@@ -600,5 +600,98 @@ Proof.
   - exfalso. assert (H1 : notifier s = Some t0) by (eapply post_notifier; eauto).
     assert (H2 : notifier s = Some t) by (eapply post_notifier; eauto; rewrite Heql; now left).
     congruence.
-  - Show.
+  - exfalso. assert (Hc : cst (cbs s c) = CReg) by (apply (B_reg _ HB t); rewrite Heql; now left).
+    destruct HPt as [? _]; [tauto|congruence].
+  - exfalso. assert (Hc : cst (cbs s c) = CReg) by (apply (B_reg _ HB t); rewrite Heql; now left).
+    destruct HP0 as [? _]; [tauto|congruence].
+Qed.
+
+Lemma InvD_comp s t s' ev : InvA s -> InvB s -> InvC s -> InvD s -> step t s = Some (s', ev) ->
+  forall c0, completed (cbs s' c0) = true -> xst (cbs s' c0) = XEnded /\ cst (cbs s' c0) = CPopped.
+Proof.
+  intros HA HB HC HD H c0.
+  pose proof (D_comp _ HD c0) as HC0.
+  step_inv H; cbn; unfold upd; eqb_cases; cbn in *; auto.
+  all: try (intros Hc; destruct (HC0 Hc); split; congruence).
+  - intros Hc. destruct (HC0 Hc) as [_ Hp].
+    assert (cst (cbs s n) = CLinked) by (apply (B_in _ HB); rewrite Heql0; now left). congruence.
+  - intros _.
+    destruct (D_post _ HD t c) as (Hp & _ & _); [rewrite Heql; now left|].
+    split; auto.
+    pose proof (B_x _ HB c) as HX. rewrite Hp in HX. cbn in HX.
+    destruct (xst (cbs s c)) as [|t'|] eqn:EX; try discriminate; auto.
+    exfalso.
+    assert (H1 : notifier s = Some t') by (eapply D_not; eauto).
+    assert (H2 : notifier s = Some t) by (eapply top_req_notifier; eauto).
+    assert (t' = t) by congruence. subst t'.
+    pose proof (B_fr _ HB c t) as HF. rewrite EX, Heql in HF. cbn in HF. rewrite Nat.eqb_refl in HF.
+    pose proof (D_ok _ HD t) as HO. rewrite Heql in HO. cbn in HO. lia.
+  - intros Hc. destruct (HC0 Hc) as [_ Hp].
+    assert (cst (cbs s c) = CReg) by (apply (B_reg _ HB t); rewrite Heql; now left). congruence.
+Qed.
+
+Lemma InvD_step s t s' ev : InvA s -> InvB s -> InvC s -> InvD s -> step t s = Some (s', ev) -> InvD s'.
+Proof.
+  intros HA HB HC HD H. constructor.
+  - eapply InvD_not; eauto.
+  - eapply InvD_post; eauto.
+  - eapply InvD_ok; eauto.
+  - eapply InvD_comp; eauto.
+Qed.
+
+Lemma InvD_init progs bods : InvD (init progs bods).
+Proof.
+  constructor; cbn; try discriminate.
+  - intros t c. destruct (nth_error progs t); cbn; [|tauto]. intros [H|[]]. discriminate.
+  - intros t. destruct (nth_error progs t); cbn; auto.
+Qed.
+
+(* ------------------------------------------------------------------------------------------ *)
+(* Layer E: destruction                                                                       *)
+
+Fixpoint ndf (c : nat) (l : list frame) : nat :=
+  match l with
+  | [] => 0
+  | (FDeregLock c' | FDeregCS c' _ | FDeregWait c') :: r => (if Nat.eqb c' c then 1 else 0) + ndf c r
+  | _ :: r => ndf c r
+  end.
+
+Definition isstarted (d : dstate) (t : nat) : bool :=
+  match d with DStarted t' => Nat.eqb t' t | _ => false end.
+
+Record InvE (s : st) : Prop := {
+  E_fr : forall c t, ndf c (thr s t) = if isstarted (dst (cbs s c)) t then 1 else 0;
+  E_started : forall c t, dst (cbs s c) = DStarted t ->
+              cst (cbs s c) = CLinked \/ cst (cbs s c) = CPopped;
+  E_done : forall c t, dst (cbs s c) = DDone t ->
+           (cst (cbs s c) = CPopped \/ cst (cbs s c) = CInl \/ cst (cbs s c) = CUnlinked) /\
+           (forall t', xst (cbs s c) = XRun t' -> t' = t);
+  E_post : forall t c, In (FReqPost c) (thr s t) -> removed (cbs s c) = false ->
+           forall t', dst (cbs s c) <> DDone t';
+  E_wait : forall t c, In (FDeregWait c) (thr s t) ->
+           notifier s <> Some t /\ cst (cbs s c) = CPopped
+}.
+
+Lemma InvE_fr s t s' ev : InvA s -> InvB s -> InvE s -> step t s = Some (s', ev) ->
+  forall c0 t0, ndf c0 (thr s' t0) = if isstarted (dst (cbs s' c0)) t0 then 1 else 0.
+Proof.
+  intros HA HB HE H c0 t0.
+  pose proof (E_fr _ HE c0 t0) as HF0.
+  pose proof (E_fr _ HE c0 t) as HFt.
+  step_inv H; cbn; unfold upd; eqb_cases; cbn in *; auto.
+  all: try lia.
+  all: rewrite ?Nat.eqb_refl in *.
+  all: try (destruct (dst (cbs s _)) eqn:ED; cbn in *; eqb_cases; try lia; try congruence; fail).
+Qed.
+
+Lemma InvE_started s t s' ev : InvA s -> InvB s -> InvE s -> step t s = Some (s', ev) ->
+  forall c0 t0, dst (cbs s' c0) = DStarted t0 ->
+  cst (cbs s' c0) = CLinked \/ cst (cbs s' c0) = CPopped.
+Proof.
+  intros HA HB HE H c0 t0.
+  pose proof (E_started _ HE c0 t0) as HS0.
+  step_inv H; cbn; unfold upd; eqb_cases; cbn in *; auto.
+  all: try discriminate.
+  all: try (intros Hd; destruct (HS0 Hd); congruence).
+  Show.
 Admitted.
